@@ -5,6 +5,8 @@ nbands) x DM x gulp on labelled files, against a float64 evaluation of the phase
 """
 from __future__ import annotations
 
+import os
+
 import numpy as np
 
 from vf.core import fixtures as fx
@@ -16,14 +18,15 @@ RULE = (
     "(nbins in {4,5,8}, nints in {1,2,3}, nbands in {1,2,3,4,C}) allowed by the library's >=10-samples-per-cell rule x DMs (zero, "
     "small, maxdelay ~ N/6, negative) x two bands (descending 6-channel, ascending 4-channel) x gulps {1,7,2maxdelay-1,2maxdelay,"
     "N/2,N,10N}; kernel counts and sums, Filterbank.fold and TimeSeries.fold cubes compared with the float64 reference; cubes of all "
-    "gulps compared bit-for-bit; periodic pulse trains. Non-trivial = more than one block, or maxdelay>0, or nints*nbands>1"
+    "gulps compared bit-for-bit; periodic pulse trains; a scale lane folds 2**21 samples (2**22 thorough) whose values name their model bin, through TimeSeries.fold and "
+    "Filterbank.fold (gulps 16384 and 100003). Non-trivial = more than one block, or maxdelay>0, or nints*nbands>1"
 )
 ASSUMPTIONS = [
     "the phase formula is the kernel's documented one, evaluated in float64 from float32-rounded tsamp, period, accel (what the kernel signature does)",
-    "configurations where some sample's phase is within 1e-6 of a bin edge, or where the reference leaves a cell empty (mean undefined), are skipped and counted",
+    "configurations where some sample's phase is within 1e-6 of a bin edge (unless accel = 0, period = 2**k tsamp and the float64 phase is provably exact: then the edge sample belongs to the upper bin), or where the reference leaves a cell empty (mean undefined), are skipped and counted",
     "whole-file folds only (the quantifier has no sub-ranges); negative delay tables are folded over the window where every channel is defined, time measured at the reference channel",
 ]
-REQUIRED_OUTCOMES = ["kernel/ok", "filterbank/ok", "timeseries/ok", "gulp_identity/ok", "pulse_train/ok"]
+REQUIRED_OUTCOMES = ["kernel/ok", "filterbank/ok", "timeseries/ok", "gulp_identity/ok", "pulse_train/ok", "timeseries/long_ok", "filterbank/long_ok"]
 
 CVAL = 299792458.0
 N = 250  # not divisible by 3: sub-integration boundaries fall between samples
@@ -49,6 +52,9 @@ def shards(tier: str, seed: int) -> list:
     for P in PERIODS:
         out.append({"kind": "tim", "P": P, "accels": b["accels"]})
     out.append({"kind": "pulse"})
+    # scale lane: millions of samples / accumulated phase bins (precision of the phase arithmetic, counters, block bookkeeping over many blocks)
+    for P in ((7.3891, 23.7) if tier == "quick" else PERIODS):
+        out.append({"kind": "long", "P": P, "n": 1 << 21 if tier == "quick" else 1 << 22})
     return out
 
 
@@ -58,6 +64,18 @@ def _phase_bins(tvals, tsamp, period, accel, total, nbins):
     tj = tvals.astype(np.float64) * ts32
     phase = nbins * tj * (1 + a32 * (tj - tobs) / (2 * CVAL)) / p32 + 0.5
     near = np.abs(phase - np.round(phase)) < 1e-6
+    if near.any() and a32 == 0.0:
+        # a sample exactly ON a bin edge is not ambiguous when the arithmetic is exact: with a period commensurate with the sampling time
+        # (period = 2**k * tsamp) every product and quotient of the formula is exactly representable, so any evaluation order gives the same
+        # phase, and the documented rule int(phase + 0.5) puts the sample in the upper bin
+        from fractions import Fraction
+
+        fts, fp = Fraction(ts32), Fraction(p32)
+        ratio = fp / fts
+        if ratio.denominator == 1 and ratio.numerator & (ratio.numerator - 1) == 0:
+            exact = all(Fraction(float(phase[j])) == Fraction(nbins) * int(tvals[j]) * fts / fp + Fraction(1, 2) for j in np.flatnonzero(near))
+            if exact:
+                near = np.zeros_like(near)
     return (np.abs(np.trunc(phase)).astype(np.int64)) % nbins, bool(near.any())
 
 
@@ -98,6 +116,8 @@ def run_shard(shard: dict, ctx, res, only=None) -> None:
         _fil(wd, shard, ctx, res, only)
     elif shard["kind"] == "tim":
         _tim(wd, shard, ctx, res, only)
+    elif shard["kind"] == "long":
+        _long(wd, shard, ctx, res, only)
     else:
         _pulse(wd, shard, ctx, res, only)
 
@@ -260,6 +280,72 @@ def _tim(wd, shard, ctx, res, only):
                     continue
                 res.outcome("timeseries/ok")
                 res.nontrivial += 1
+
+
+def _long(wd, shard, ctx, res, only):
+    """Every sample carries the number of the phase bin the model assigns it (+1): a correct cube holds exactly b+1 in every cell of bin b.
+    Samples within 1e-6 of a bin edge (a few per million) carry the mean of their two candidate bins and cannot move a cell mean by more than
+    their share; the tolerance is 1e-3, a misplaced fraction of 0.1 % of a cell."""
+    from sigpyproc.header import Header
+    from sigpyproc.readers import FilReader
+    from sigpyproc.timeseries import TimeSeries
+
+    P, n = shard["P"], shard["n"]
+    period = P * TSAMP
+    for accel in (0.0, 5.0):
+        for nbins, nints in ((8, 4), (64, 1)):
+            if only is not None and [accel, nbins, nints] != only:
+                continue
+            case = {"shard": shard, "inner": [accel, nbins, nints]}
+            tv = np.arange(n)
+            ts32, p32, a32 = float(np.float32(TSAMP)), float(np.float32(period)), float(np.float32(accel))
+            tj = tv.astype(np.float64) * ts32
+            phase = nbins * tj * (1 + a32 * (tj - n * ts32) / (2 * CVAL)) / p32 + 0.5
+            bins = np.trunc(phase).astype(np.int64) % nbins
+            x = (bins + 1).astype(np.float32)
+            near = np.abs(phase - np.round(phase)) < 1e-6
+            x[near] = ((bins[near] + 1) + ((bins[near] - 1) % nbins + 1)) / 2.0
+            res.count("long_near_edge_samples", int(near.sum()))
+            want = np.broadcast_to((np.arange(nbins) + 1.0)[None, None, :], (nints, 1, nbins))
+            # TimeSeries.fold
+            res.evaluations += 1
+            hdr = Header(filename="t.tim", data_type="time series", nchans=1, foff=-1.0, fch1=1400.0, nbits=32, tsamp=TSAMP, tstart=58000.0, nsamples=n, dm=0.0)
+            try:
+                cube = np.asarray(TimeSeries(x, hdr).fold(period, accel=accel, nbins=nbins, nints=nints).data, dtype=np.float64)
+                if cube.shape != want.shape or not np.all(np.abs(cube - want) <= 1e-3):
+                    k = np.unravel_index(int(np.argmax(np.abs(cube - want))), want.shape) if cube.shape == want.shape else None
+                    res.violation({"site": "TimeSeries.fold", "symptom": "cube differs from the mean of the samples the phase model assigns", "long": True}, case,
+                                  f"n={n} P={P} accel={accel} nbins={nbins}: cell {k}: got {cube[k] if k else cube.shape} want {want[k] if k else want.shape}")
+                else:
+                    res.outcome("timeseries/long_ok")
+                    res.nontrivial += 1
+            except Exception as e:  # noqa: BLE001
+                res.violation({"site": "TimeSeries.fold", "symptom": f"raised {type(e).__name__}", "long": True}, case, repr(e))
+            # Filterbank.fold over many blocks (2 channels, DM 0, default and small gulps)
+            if nbins != 8:
+                continue
+            X2 = np.stack([x, x], axis=1)
+            paths = fx.make_fileset(wd, X2, 32, [n], fch1=1500.0, foff=-60.0, tsamp=TSAMP, stem=f"L{P}_{accel}_")
+            fil = FilReader(paths)
+            fil.logger.disabled = True
+            for g in (16384, 100003):
+                res.evaluations += 1
+                try:
+                    cube = np.asarray(fil.fold(period, 0.0, accel=accel, nbins=nbins, nints=nints, nbands=2, gulp=g, quiet=True, description="vf").data, dtype=np.float64)
+                    want2 = np.broadcast_to((np.arange(nbins) + 1.0)[None, None, :], (nints, 2, nbins))
+                    if cube.shape != want2.shape or not np.all(np.abs(cube - want2) <= 1e-3):
+                        res.violation({"site": "Filterbank.fold", "symptom": "cube differs from the mean of the samples the phase model assigns", "long": True}, {**case, "inner": [accel, nbins, nints]},
+                                      f"n={n} P={P} accel={accel} gulp={g}: max deviation {float(np.max(np.abs(cube - want2))) if cube.shape == want2.shape else cube.shape}")
+                    else:
+                        res.outcome("filterbank/long_ok")
+                        res.nontrivial += 1
+                except Exception as e:  # noqa: BLE001
+                    res.violation({"site": "Filterbank.fold", "symptom": f"raised {type(e).__name__}", "long": True}, case, repr(e))
+            for pth in paths:
+                try:
+                    os.unlink(pth)
+                except OSError:
+                    pass
 
 
 def _pulse(wd, shard, ctx, res, only):
